@@ -43,6 +43,8 @@ def termCause (style : String) (code : Nat) (reason : Bytes) : Option Result.Cau
     | some (.appClosed 0 []) => some .peerFin
     | d => ofDriver d
   else if style == "reset" then ofDriver (Worker.connectRun [] .reset)
+  else if style == "raw_fin" then ofDriver (Worker.connectRun reason .fin)
+  else if style == "raw_reset" then ofDriver (Worker.connectRun reason .reset)
   else if style == "fin_mid_frame" then ofDriver (Worker.connectRun [0x00, 0x40] .fin)
   else if style == "capsule_short" then ofDriver (Worker.connectRun (capsuleWith [0, 0, 1]) .open_)
   else if style == "capsule_long" then
@@ -111,6 +113,15 @@ def handle6 (op : String) (a obs : List String) : Option Verdict :=
          ("held_streams_end", whenS != "streams" || (field obs "held_read" != "timeout" && field obs "held_write" != "timeout")),
          ("later_stream_calls_fail_never_succeed", whenS != "streams" ||
             (field obs "held_write" != "ok" && field obs "held_read" != "eos" && field obs "held_read" != "data" && (splitList (field obs "held_finish")).all (fun r => r != "ok" && r != "timeout"))),
+         -- independent framing (`Spec`): when everything complete on the CONNECT stream was an
+         -- ignorable frame and the stream then ended inside an element (or was reset), no call
+         -- may report an application close
+         ("end_inside_an_element_is_never_an_application_close",
+          !(style == "raw_fin" || style == "raw_reset") ||
+            (let fs := specFrames (reason.length + 1) reason
+             let ignorable := fs.all (fun f => Spec.isGrease f.1 || f.1 == 0x42)
+             let abrupt := style == "raw_reset" || !(specRest (reason.length + 1) reason).isEmpty
+             !(ignorable && abrupt) || calls.all (fun c => !(field obs c).startsWith "app:"))),
          ("peer_told", field obs "peer_close" != "alive")])
     pure (model, prop)
   | "drop.handles" =>
